@@ -124,6 +124,10 @@ def streams_of(s, strip):
     return [(k, f(p)) for k, p in s.events if k in ('out', 'err', 'ui')]
 
 
+def PASS_OF(line):
+    return outline.PASS_PREFIX + line.strip()
+
+
 def check_script(ctx, script, rng, coloured_first=None):
     if coloured_first is None:
         coloured_first = rng.random() < 0.5
@@ -143,6 +147,12 @@ def check_script(ctx, script, rng, coloured_first=None):
         return False
     a = streams_of(plain, False)
     b = streams_of(col, True)
+    # escape sequences that were in the input are part of a passed-through line's text in both runs: they are exempt
+    # only where the item is that line, prefix + text, and nothing else
+    own = set(PASS_OF(l) for l in script['lines'] if '\x1b' in l)
+    if own:
+        ctx.count('scripts_with_coloured_chatter')
+        a = [(k, outline.strip_sgr(p) if p in own else p) for k, p in a]
     ctx.count('items_compared', len(a))
     has_esc = any('\x1b' in p for k, p in col.events if k in ('out', 'err'))
     if has_esc:
@@ -276,7 +286,9 @@ def run(ctx, spec):
         lines = [e['line'] for e in st['entries']]
         # chatter
         for _ in range(rng.randint(0, 5)):
-            lines.insert(rng.randrange(len(lines) + 1), rng.choice(['hello world', '', 'libEGL warning: x', '[1.0] nope', 'żółć']))
+            lines.insert(rng.randrange(len(lines) + 1), rng.choice(['hello world', '', 'libEGL warning: x', '[1.0] nope', 'żółć',
+                                                                     # the program's own colours on a passed-through line: they are the line's text
+                                                                     '\x1b[31mERROR:\x1b[0m something failed', '\x1b[1;32mok', 'plain \x1b[0m', '\x1b[38;5;208mwarn\x1b[m [2.0] x']))
         lines = break_lines(rng, lines)
         ms = matcher_texts(rng, st)
         hooks = {}
